@@ -67,6 +67,21 @@ def check_masked(inp):
     val = float(models.evaluate_average_loss(params, batches, key, pel, r))
     if np.isnan(val) or abs(val - ref_loss()) > 1e-4 * (1 + abs(ref_loss())):
       return f'average loss with padded batches of {bs}/{buckets}: {val}, expected {ref_loss()} (n={n}, reg={use_reg})'
+  # the evaluator class algorithms use (HypCluster, Mime variants): same number through both of its entry points, for
+  # several clients at once, whatever the padding geometry
+  ev = models.AverageLossEvaluator(pel, r)
+  for bs, buckets in ((2, 1), (max(n, 1) + 3, 3)):
+    cl = [(b'a', list(ds.padded_batch(batch_size=bs, num_batch_size_buckets=buckets)), key),
+          (b'b', list(ds.padded_batch(batch_size=bs + 1)), key)]
+    for which, outs_ in (('evaluate_global_params', list(ev.evaluate_global_params(params, cl))),
+                         ('evaluate_per_client_params', list(ev.evaluate_per_client_params(
+                             [(c_, b_, k_, params) for c_, b_, k_ in cl])))):
+      if [c_ for c_, _ in outs_] != [b'a', b'b']:
+        return f'AverageLossEvaluator.{which}: results for {[c_ for c_, _ in outs_]}, expected one per client in order'
+      for c_, v_ in outs_:
+        if np.isnan(float(v_)) or abs(float(v_) - ref_loss()) > 1e-4 * (1 + abs(ref_loss())):
+          return (f'AverageLossEvaluator.{which} with padded batches of {bs}/{buckets}: {float(v_)} for client {c_}, expected '
+                  f'{ref_loss()} (n={n}, reg={use_reg})')
   # real rows at any position of a batch (a mask and-ed with a filter): [F, T, T, ...]
   if n >= 2:
     whole = {k_: np.concatenate([np.full_like(np.asarray(v)[:1], 9), np.asarray(v)]) for k_, v in data.items()}
